@@ -179,6 +179,28 @@ def reread_step(s, op, cc):
         if s.passes >= 2 and s.others > 0 and model_multi_vr(s.model):
             cc.nt(True)
         return
+    if kind == 'pass_while_another_is_abandoned':
+        # an iterator started earlier (to peek at the first records) is still alive when a full pass runs on the same reader,
+        # and is closed - or garbage collected - part way through that pass
+        peek = s.fr.iter_logical_records()
+        for _ in range(1 + op['peek'] % n):
+            next(peek, None)
+        got = []
+        for fld in s.fr.iter_logical_records():
+            got.append((bool(fld.lr_is_eflr), fld.lr_type, bytes(fld.logical_data.bytes), fld.position.vr_position, fld.position.lrsh_position))
+            if peek is not None and len(got) >= 1 + op['close_after'] % n:
+                peek.close()
+                peek = None
+        if peek is not None:
+            peek.close()
+        cc.cls('reread:pass-while-an-abandoned-iterator-is-closed')
+        if got != s.exp:
+            k = next((i for i, (g, e) in enumerate(zip(got, s.exp)) if g != e), min(len(got), n))
+            cc.dev('records==written', 'pass-disturbed-by-closing-an-abandoned-iterator',
+                   'peeked %d record(s), full pass, first iterator closed after record %d: %d records read, first difference at record %d of %d' % (
+                       1 + op['peek'] % n, 1 + op['close_after'] % n, len(got), k, n))
+        s.passes += 1
+        return
     s.others += 1
     if kind == 'visible_records':
         vrs = [(v.position, v.length) for v in s.fr.iter_visible_records()]
@@ -229,6 +251,10 @@ class RereadMachine(HistoryMachine):
     @rule(k=st.integers(0, 5))
     def fetch(self, k):
         self.op({'op': 'fetch', 'k': k})
+
+    @rule(peek=st.integers(0, 3), close_after=st.integers(0, 5))
+    def pass_while_another_is_abandoned(self, peek, close_after):
+        self.op({'op': 'pass_while_another_is_abandoned', 'peek': peek, 'close_after': close_after})
 
 
 def parts(tier):
